@@ -6,23 +6,29 @@ use proptest::prelude::*;
 use crate::common::{Ctx, Tier};
 use crate::strat;
 use crate::interp::{self, History, Oracles};
+use super::hist::{HCase, run_multi, with_multi};
 use crate::runner::Property;
 
 pub struct C05;
 
 impl Property for C05 {
     const ID: &'static str = "C05";
-    type Case = History;
+    type Case = HCase;
 
-    fn strategy(_tier: Tier) -> BoxedStrategy<History> {
-        (strat::ring_cfg(4), proptest::collection::vec(strat::step(strat::kind_basic().boxed(), 0, 1), 0..60)).prop_map(|(cfg, steps)| History { cfg, steps, teardown: None }).boxed()
+    fn strategy(_tier: Tier) -> BoxedStrategy<HCase> {
+        with_multi((strat::ring_cfg(4), proptest::collection::vec(strat::step(strat::kind_basic().boxed(), 0, 1), 0..60)).prop_map(|(cfg, steps)| History { cfg, steps, teardown: None }).boxed(), 1)
     }
 
     fn cases(tier: Tier) -> u32 {
         tier.pick(6_000, 400_000)
     }
 
-    fn run(case: &History, ctx: &mut Ctx) {
+    fn run(case: &HCase, ctx: &mut Ctx) {
+        let case = match case {
+            HCase::Seq(h) => h,
+            HCase::Multi(m) => return run_multi(m, ctx, "C05", &[">=3-results-queued", ">=3-results-in-one-poll"]),
+            HCase::Drop(_) => return,
+        };
         let oracles = Oracles { c05: true, ..Oracles::default() };
         let feats = interp::execute(case, oracles, ctx);
         ctx.nontrivial = (feats.contains("batch>=2") && (feats.contains("bookkeeping-cqe") || feats.contains("skip-cqe"))) || feats.contains("cq-wrapped") || feats.contains("overflow-flush");
@@ -35,7 +41,7 @@ impl Property for C05 {
     }
 
     fn rule() -> &'static str {
-        "proptest histories (ring config incl. CQ size 1..64, generated start counters of both rings incl. 2^32-k, alternate ring layout; steps: start/poll/drop operations, kernel posts operation, bookkeeping (user_data 0-3) and F_SKIP completions in generated batches, Ring::poll with inline kernel actions) executed against real a10 over the simulated kernel; unpublished CQ slots are filled with a poison completion for a running operation. Non-trivial = one Ring::poll consumed >=2 CQEs of which >=1 bookkeeping/SKIP, or the CQ tail crossed 2^32, or an overflow flush happened. Distinct = distinct (ring class, feature set) fingerprints."
+        "proptest histories (ring config incl. CQ size 1..64, generated start counters of both rings incl. 2^32-k, alternate ring layout; steps: start/poll/drop operations, kernel posts operation, bookkeeping (user_data 0-3) and F_SKIP completions in generated batches, Ring::poll with inline kernel actions) executed against real a10 over the simulated kernel; unpublished CQ slots are filled with a poison completion for a running operation. Non-trivial = one Ring::poll consumed >=2 CQEs of which >=1 bookkeeping/SKIP, or the CQ tail crossed 2^32, or an overflow flush happened. Distinct = distinct (ring class, feature set) fingerprints. One case in five runs the multi-completion driver (props/multi.rs: multishot accept, zero-copy sends, writes; several completions of one operation consumed by one or by several Ring::poll calls): each operation must be handed exactly the completions the kernel published for it, in publication order (per-operation FIFO of consumed completions against what the future yields); non-trivial (multi) = >= 3 results of one operation queued or consumed in one Ring::poll."
     }
 
     fn assumptions() -> Vec<&'static str> {
